@@ -29,6 +29,31 @@ P = {
          "Every history segment a replica hands to the Server trait is validated strictly (keys, types, uuid and timestamp syntax, no extra fields), compared in order and content with the committed operations, and scanned for markers planted in undo-only data; conversely thousands of hand-written documents (other field orders, whitespace, escapes, timestamp precisions, invalid-but-well-formed operations) are applied by a fresh replica and compared with the reference model.",
          "The {\"operations\":[...]} wrapper is treated as normative (the book shows a bare array). Hand-written documents stay inside the documented grammar.",
          "DESIGN.md §5 C14"),
+ "C07": (True, "E1-history", "exploration",
+         "runtime monitor: per-prefix model states vs replica after undo; wire comparison of what is later sent",
+         "Seeded histories of valid batches with undo points, undo, stale-list submissions, syncs and repeated undo down to the last sync on in-memory and SQLite replicas; after each step tasks, the unsynced list and the counters are compared with the harness' model state at the undo point, stale lists must be refused without change, synchronized changes must not be undoable, and the operations later sent to the server must be exactly the surviving ones.",
+         "Valid sequences only (the property says so). An undo span holding only an undo point may report false.",
+         "DESIGN.md §5 C07"),
+ "C15": (True, "E1-history", "exploration",
+         "runtime monitor: working-set specification model over exhaustive small prior working sets and random histories",
+         "A specification model written from the statement judges every rebuild (explicit in both modes, implicit after sync and after undo) and every commit: exhaustive over prior working sets of length <=4 x slot kinds {pending, completed, purged, gap} x newcomers x modes (SQLite sampled in quick), plus random histories over all statuses, purges, expiry and incoming syncs.",
+         "Trailing empty positions are unobservable by design; newcomer positions only need to be distinct and above every retained number.",
+         "DESIGN.md §5 C15"),
+ "C18": (True, "E6-adversarial", "exploration",
+         "runtime monitor: panic capture (catch_unwind + panic-hook location) around every read accessor on hostile task maps",
+         "A boundary dictionary (34 keys/prefixes x 27 values x 3 statuses) is enumerated completely and random hostile task sets are loaded by commit and through sync on both storages; every read accessor of Task, TaskData, WorkingSet, DependencyMap and Replica is called under catch_unwind with iterators drained; any panic is a violation keyed by its location.",
+         "Only panics are judged, not the returned values.",
+         "DESIGN.md §5 C18"),
+ "C19": (True, "E1-history", "exploration",
+         "runtime monitor: documented-effect model of every mutator + old-value shadow replay + independent synthetic-tag/dependency-map computation",
+         "Random sequences over all public Task and TaskData mutators (incl. reserved names, synthetic and invalid tags, all UDA API generations) across commit/reload cycles; after every call the Task the caller holds must equal the documented effect, every recorded Update's old value must equal the shadow map, commits must store exactly the held task, the end/modified rules must hold, and synthetic tags / dependency map must equal an independent computation from the stored data.",
+         "Session = lifetime of one Task value; dependency map compared after dependency_map(true) and a non-renumbering rebuild; clock-derived values judged by a wall-clock window.",
+         "DESIGN.md §5 C19"),
+ "C20": (True, "E1-history", "exploration",
+         "runtime monitor: independent expiry predicate over a complete status x modified dictionary; multi-replica purge histories with concurrent edits",
+         "expire_tasks is judged by an independent predicate on every status x boundary `modified` value (both storages) and in multi-replica histories where other replicas edit the tasks concurrently: the purge must be recorded and sent as plain Delete operations and the task must be gone on every replica after syncing in a random order.",
+         "No clock hook: tasks inside the window swept by the clock during the call are excluded (boundary cases sit ±5 s outside it).",
+         "DESIGN.md §5 C20"),
 }
 
 NOT_YET = "check not built yet in this round (see DESIGN.md §5c build order)"
